@@ -25,6 +25,9 @@ pub fn gen_case(t: &mut Tape) -> Case {
     cfg.hazards = c16::ALL_HAZARDS.to_vec();
     let c = c01::gen_case(t, cfg);
     let mut src = print::program(&c.prog);
+    if t.chance(1, 2) {
+        src = crate::model::lexdecor::decorate(t, &src);
+    }
     let dialect = if t.chance(1, 8) { None } else { Some(t.choose(DIALECTS.len())) };
     match t.choose(8) {
         0 => src = format!("prql target:sql.{}\n\n{src}", DIALECTS[t.choose(DIALECTS.len())].0),
